@@ -171,4 +171,16 @@ CLAIMED["C08"] = {
     "technique": "Coq proof over a regenerated Gallina scanner and a hand render model + correspondence and round-trip enumeration on the interpreter",
 }
 
+CLAIMED["C18"] = {
+    "text": ("Theorems in coq/Props/C18.v for ALL strings (lists of code points): join sep (split s sep) = s for every non-empty literal separator; replace = join of the "
+             "split with the new text (every non-overlapping occurrence, left to right), replace of a text by itself and of an absent text is the identity; reverse is "
+             "an involution; contains s t iff find s t >= 0 iff s = a ++ t ++ b; starts_with / ends_with iff prefix / suffix decomposition; concatenation laws; trim is "
+             "idempotent for every notion of white space; case mapping is idempotent for every idempotent per-character map (ASCII instance proved); a placeholder "
+             "keeps its value whole, padded to the width with blanks or zeroes only, and literal text is unchanged. The specification model is tied to the interpreter by "
+             "a vm_compute correspondence (all pairs of a 33-string set + adversarial random strings); the laws and host-string oracles are also evaluated on the "
+             "implementation. Placeholder expressions, non-ASCII case mapping and lines/words are decided on the implementation only (partial)."),
+    "note": _EV + " Specification model Model/StrSpec.v + Prelude/PyPrelude.v string functions (hand-written, tied by correspondence).",
+    "technique": "Coq proof over a hand specification model + vm_compute correspondence and law evaluation on the interpreter",
+}
+
 NOT_APPLICABLE = {}
